@@ -259,6 +259,8 @@ type Case struct {
 	Header   map[string][]string `json:"header,omitempty"`
 	FullLen  int                 `json:"full_len,omitempty"` // A2: length of the uncut recorded body
 	Synth    *synthSpec          `json:"synth,omitempty"`    // A2-large: the body is generated from this instead of body_hex
+	Dest     string              `json:"dest,omitempty"`     // destination message objects handed to RecvMsg: "" (a fresh zero message per receive) | fresh-prepop | reused | reused-prepop
+	Ctx      *ctxSpec            `json:"ctx_end,omitempty"`  // the call's context ends at a frame-granular instant (client streams)
 
 	body []byte
 }
@@ -277,6 +279,9 @@ func (c *Case) Body() []byte {
 }
 
 func (c *Case) ending() string {
+	if c.Ctx != nil {
+		return "context-ends"
+	}
 	if c.Abrupt {
 		return "abrupt-eof"
 	}
@@ -419,6 +424,8 @@ type variant struct {
 	delivery string
 	splits   []int
 	cl       *int64
+	dest     string
+	ctx      *ctxSpec
 }
 
 func i64(v int64) *int64 { return &v }
@@ -531,6 +538,7 @@ type space struct {
 	starts     []int // starts[k] = index of the first case of block k; len = blocks+1
 	nA1, nA2   int
 	nLarge     int
+	ctxBases   []ctxBase
 
 	pairs       bool // fragmentations into three reads as well
 	fragWithErr bool
@@ -545,19 +553,25 @@ func (s *space) a1Case(h hostile, sm int, abrupt bool, v variant, alpha string) 
 		alpha = h.alpha
 	}
 	return &Case{Alphabet: alpha, Side: sideModes[sm][0], Mode: sideModes[sm][1], BodyHex: hex.EncodeToString(h.body), body: h.body,
-		Abrupt: abrupt, Delivery: v.delivery, Splits: v.splits, CL: v.cl, Label: h.label}
+		Abrupt: abrupt, Delivery: v.delivery, Splits: v.splits, CL: v.cl, Dest: v.dest, Label: h.label}
 }
 
 func (s *space) a2Case(b a2base, abrupt bool, v variant) *Case {
 	body := b.rec.Body[:b.cut:b.cut]
 	c := &Case{Alphabet: "A2", Side: b.rec.Side, Mode: b.rec.Mode, BodyHex: hex.EncodeToString(body), body: body,
-		Abrupt: abrupt, Delivery: v.delivery, Splits: v.splits, CL: v.cl, Label: fmt.Sprintf("%s cut at %d of %d", b.rec.Name, b.cut, len(b.rec.Body)), FullLen: len(b.rec.Body)}
+		Abrupt: abrupt, Delivery: v.delivery, Splits: v.splits, CL: v.cl, Dest: v.dest, Ctx: v.ctx, Label: fmt.Sprintf("%s cut at %d of %d", b.rec.Name, b.cut, len(b.rec.Body)), FullLen: len(b.rec.Body)}
 	if b.rec.Mode == "unary" && b.rec.Side == "client" {
 		c.Status = b.rec.Status
 		c.Header = b.rec.Header
 	}
 	if b.cut == len(b.rec.Body) {
 		c.Expect = &expect{Msgs: b.rec.Msgs, FinalEOF: b.rec.FinalEOF, Final: b.rec.Final}
+	}
+	if v.ctx != nil {
+		// the body is complete but the context ends before it is consumed: only
+		// the safety clauses apply, not "decodes to what the genuine run delivered"
+		c.Expect = nil
+		c.Label = fmt.Sprintf("%s, complete (%d bytes)", b.rec.Name, len(b.rec.Body))
 	}
 	return c
 }
@@ -580,7 +594,7 @@ func (s *space) largeCase(b largeBase, side string, abrupt bool, v variant) *Cas
 	if side == "server" {
 		what = "request"
 	}
-	c := &Case{Alphabet: "A2-large", Side: side, Mode: "stream", body: body, Abrupt: abrupt, Delivery: v.delivery, Splits: v.splits, CL: v.cl,
+	c := &Case{Alphabet: "A2-large", Side: side, Mode: "stream", body: body, Abrupt: abrupt, Delivery: v.delivery, Splits: v.splits, CL: v.cl, Dest: v.dest,
 		Label: fmt.Sprintf("%s with large frames %s %s", what, spec.name(), where), FullLen: len(full), Synth: spec}
 	if b.cut < 0 {
 		e := &expect{Msgs: []string{}, FinalEOF: true, Final: "EOF"}
@@ -732,6 +746,37 @@ func buildSpace(tier string) (*space, error) {
 		b := s.a2[j]
 		return s.a2Case(b, s.endingsA2[e], variant{delivery: s.deliveries[d], cl: i64(clValues(b.cut, len(b.rec.Body))[off])})
 	}})
+	// --- destination message object (dims.go), swept around the base cases
+	// hostile bodies (quick: <= 2 frames and the byte strings; thorough: all) x side/mode x destination, clean ending, whole
+	nDV := len(destValues)
+	s.add(block{name: "A1-dest", n: nH * nSM * nDV, at: func(i int) *Case {
+		dv := i % nDV
+		i /= nDV
+		sm := i % nSM
+		i /= nSM
+		return s.a1Case(s.hostile.at(hIdx(i)), sm, false, variant{delivery: "whole", dest: destValues[dv]}, "")
+	}})
+	// recorded bodies: every cut x ending x base delivery x destination
+	cd := newCum(len(s.a2), func(j int) int { return len(destFor(s.a2[j].rec.Mode)) })
+	s.add(block{name: "A2-dest", n: cd.total() * nE2 * nD, at: func(i int) *Case {
+		d := i % nD
+		i /= nD
+		e := i % nE2
+		i /= nE2
+		j, off := cd.find(i)
+		return s.a2Case(s.a2[j], s.endingsA2[e], variant{delivery: s.deliveries[d], dest: destFor(s.a2[j].rec.Mode)[off]})
+	}})
+	// --- the context ends at a frame-granular instant (dims.go): every complete
+	// recorded response x every (frames released, messages taken, consumer
+	// between calls / inside RecvMsg) x cancel / deadline x base delivery
+	s.buildCtxBases()
+	s.add(block{name: "A2-ctx", n: len(s.ctxBases) * nD, at: func(i int) *Case {
+		d := i % nD
+		i /= nD
+		b := s.ctxBases[i]
+		spec := b.spec
+		return s.a2Case(s.a2[b.a2], false, variant{delivery: s.deliveries[d], ctx: &spec})
+	}})
 	// --- the large bodies come last: each leaves megabytes of garbage, and the
 	// collections that clear it must not recycle memory for the huge frames above
 	s.nLarge = len(s.large) * len(largeSides) * nE2 * nD
@@ -785,6 +830,14 @@ func buildSpace(tier string) (*space, error) {
 		lb := lbases[j]
 		full := (&synthSpec{Sizes: lb.b.sizes}).fullLen(lb.side)
 		return s.largeCase(lb.b, lb.side, s.endingsA2[e], variant{delivery: "whole", cl: i64(clValues(lbLen(lb.b, lb.side), full)[off])})
+	}})
+	// large bodies x ending x destination, whole
+	s.add(block{name: "A2-large-dest", n: len(lbases) * nE2 * nDV, gcAfter: true, at: func(i int) *Case {
+		dv := i % nDV
+		i /= nDV
+		e := i % nE2
+		i /= nE2
+		return s.largeCase(lbases[i].b, lbases[i].side, s.endingsA2[e], variant{delivery: "whole", dest: destValues[dv]})
 	}})
 	return s, nil
 }
